@@ -90,6 +90,7 @@ def gen_universe_spec(
     if name_mode == "mixed":
         nm = {k: rng.choice(["unique", "unique", "dup", "auto", "weird"]) for k in "nlod"}
     return {
+        "user_subclasses": rng.random() < 0.15,
         "nodes": [{"name": x} for x in gen_names(rng, "N", nn, nm["n"])],
         "links": [
             gen_link_spec(rng, i, x) for i, x in enumerate(gen_names(rng, "L", nl, nm["l"]))
@@ -106,11 +107,23 @@ class Universe:
     def __init__(self, spec: dict):
         import sym_metanet as M
 
+        if spec.get("user_subclasses"):
+            # elements may be instances of caller-defined (trivial) subclasses of the library's classes
+            class _NS:
+                pass
+
+            ns = _NS()
+            for cname in ("Node", "Link", "LinkWithVsl", "Origin", "MainstreamOrigin", "MeteredOnRamp",
+                          "SimplifiedMeteredOnRamp", "Destination", "CongestedDestination"):
+                setattr(ns, cname, type("User" + cname, (getattr(M, cname),), {}))
+            M_ = ns
+        else:
+            M_ = M
         self.spec = spec
         self.objs: dict[str, object] = {}
         self._labels: dict[int, str] = {}
         for i, s in enumerate(spec["nodes"]):
-            self._put(f"n{i}", M.Node(name=s["name"]))
+            self._put(f"n{i}", M_.Node(name=s["name"]))
         arr = spec.get("param_arrays")  # caller-owned NumPy arrays as element parameters
         if arr:
             import numpy as np
@@ -123,7 +136,7 @@ class Universe:
             args = (s["N"], s["lam"], P(s["L"]), P(s["rho_max"]), P(s["rho_crit"]), P(s["v_free"]), P(s["a"]))
             s = dict(s, turnrate=TR(s["turnrate"]))
             if s["cls"] == "LinkWithVsl":
-                o = M.LinkWithVsl(
+                o = M_.LinkWithVsl(
                     *args,
                     turnrate=s["turnrate"],
                     name=s["name"],
@@ -131,17 +144,17 @@ class Universe:
                     alpha=s["alpha"],
                 )
             else:
-                o = M.Link(*args, turnrate=s["turnrate"], name=s["name"])
+                o = M_.Link(*args, turnrate=s["turnrate"], name=s["name"])
             self._put(f"l{i}", o)
         for i, s in enumerate(spec["origins"]):
-            cls = getattr(M, s["cls"])
+            cls = getattr(M_, s["cls"])
             if s["cls"] in RAMP_CLASSES:
                 o = cls(P(s["C"]), s["type"], name=s["name"])
             else:
                 o = cls(name=s["name"])
             self._put(f"o{i}", o)
         for i, s in enumerate(spec["dests"]):
-            self._put(f"d{i}", getattr(M, s["cls"])(name=s["name"]))
+            self._put(f"d{i}", getattr(M_, s["cls"])(name=s["name"]))
         self.junk = {}
         for i, s in enumerate(spec.get("junk", [])):
             v = tuple(s) if isinstance(s, list) else s
